@@ -198,14 +198,16 @@ impl Prop for C06 {
                 enumr::nbhd(&a, &a, 1, &mut |s| f(Case::sn(s, vec![pair_off])));
             },
         ));
-        if tier == Tier::Thorough {
+        {
+            let ls: Vec<usize> = if tier == Tier::Quick { vec![60, 90, 120] } else { vec![60, 75, 90, 105, 120] };
+            let stp = if tier == Tier::Quick { 3 } else { 1 };
             v.push(Scope::new(
                 "long-diagonal-junctions",
-                "diagonals of 60, 90 and 120 cells in both directions with a two-cell horizontal stub attached at every third row, on either side x 24 offsets",
+                "diagonals of 60, 90, 120 (thorough: also 75, 105) cells in both directions with a two-cell horizontal stub attached at every third (thorough: every) row, on either side x 24 offsets",
                 move |f| {
-                    for l in [60usize, 90, 120] {
+                    for &l in &ls {
                         for dir in [2u8, 3] {
-                            for r in (1..l - 1).step_by(3) {
+                            for r in (1..l - 1).step_by(stp) {
                                 for side in 0..2 {
                                     let mut cv = shapes::Canvas::new();
                                     for i in 0..l as i32 {
@@ -228,6 +230,8 @@ impl Prop for C06 {
                     }
                 },
             ));
+        }
+        if tier == Tier::Thorough {
             v.push(Scope::new(
                 "sparse3",
                 "all 3x3 grids with at most 3 non-blank cells over the ASCII drawing alphabet x 3 offsets",
